@@ -73,13 +73,17 @@ def compare_run(ck, frontend, setname, table, contexts, run, expected, single=No
             got_masks = sorted({r[3] for _, r in cands if r[3] is not None})
             kind = 'no-result'
             if got_masks:
+                # which explanation fits one of the reported masks (results of the same test in other contexts are among them)
                 cand_rows = [[i for i, v in enumerate(m) if v == 'true'] for m in got_masks]
-                got_rows = min(cand_rows, key=lambda r: len(set(r) ^ set(rows)))      # the reported mask closest to the expected one
-                hi = contexts[ci]['window'][1]
+                lo, hi = contexts[ci]['window']
                 at_ending = [i for i in range(table.n) if hi is not None and table.t[i] == hi]
-                if got_rows == sorted(set(rows) | set(at_ending)) and at_ending:
+                everything = list(range(table.n))
+                open_bound = (lo is None) != (hi is None)
+                if open_bound and everything in cand_rows:
+                    kind = 'window-ignored'
+                elif at_ending and sorted(set(rows) | set(at_ending)) in cand_rows:
                     kind = 'row-at-ending-included'
-                elif got_rows == list(range(table.n)):
+                elif everything in cand_rows:
                     kind = 'window-ignored'
                 else:
                     kind = 'other-rows'
